@@ -6,12 +6,12 @@ import (
 	"testing"
 
 	"github.com/ipld/go-ipld-prime/codec/dagcbor"
-	"github.com/ipld/go-ipld-prime/datamodel"
 	"github.com/ipld/go-ipld-prime/node/bindnode"
 	"github.com/ipld/go-ipld-prime/schema"
 	"pgregory.net/rapid"
 
 	"verif/evid"
+	"verif/typedx"
 	"verif/known"
 	"verif/nodes"
 	"verif/refcbor"
@@ -26,37 +26,6 @@ type C08Case struct {
 	Type string         `json:"type"`
 	TV   tschema.TV     `json:"value"`
 	Prog []byte         `json:"prog"`
-}
-
-func reprOf(n datamodel.Node) (datamodel.Node, error) {
-	tn, ok := n.(schema.TypedNode)
-	if !ok {
-		return nil, fmt.Errorf("node %T is not a schema.TypedNode", n)
-	}
-	return tn.Representation(), nil
-}
-
-// checkViews reads both views of a typed node against the reference views.
-func checkViews(n datamodel.Node, tview, rview val.V, what string) error {
-	got, err := nodes.FullTyped.Read(n)
-	if err != nil {
-		return fmt.Errorf("%s: type-level view inconsistent: %w", what, err)
-	}
-	if !val.Equal(got, tview, val.Ordered) {
-		return fmt.Errorf("%s: type-level view differs: %s (got vs want)", what, val.Diff(got, tview))
-	}
-	var rn datamodel.Node
-	if err := evid.Guard("Representation()", func() error { var e error; rn, e = reprOf(n); return e }); err != nil {
-		return fmt.Errorf("%s: %w", what, err)
-	}
-	rgot, err := nodes.Full.Read(rn)
-	if err != nil {
-		return fmt.Errorf("%s: representation view inconsistent: %w", what, err)
-	}
-	if !val.Equal(rgot, rview, val.Ordered) {
-		return fmt.Errorf("%s: representation view differs: %s (got vs want)", what, val.Diff(rgot, rview))
-	}
-	return nil
 }
 
 func c08Check(c C08Case, rec *evid.Rec) error {
@@ -79,7 +48,7 @@ func c08Check(c C08Case, rec *evid.Rec) error {
 	if err != nil {
 		return fmt.Errorf("type-level builder of %s rejected a value of the type (%s): %w", c.Type, tview.Short(200), err)
 	}
-	if err := checkViews(n1, tview, rview, "built at type level"); err != nil {
+	if err := typedx.CheckViews(n1, tview, rview, "built at type level"); err != nil {
 		return err
 	}
 	// 2. through the representation builder
@@ -87,13 +56,13 @@ func c08Check(c C08Case, rec *evid.Rec) error {
 	if err != nil {
 		return fmt.Errorf("representation builder of %s rejected the representation %s: %w", c.Type, rview.Short(200), err)
 	}
-	if err := checkViews(n2, tview, rview, "built at representation level"); err != nil {
+	if err := typedx.CheckViews(n2, tview, rview, "built at representation level"); err != nil {
 		return err
 	}
 	// 3. encode the representation, decode it back through the representation builder
 	ref, rerr := refcbor.Encode(rview)
 	if rerr == nil {
-		rn, _ := reprOf(n1)
+		rn, _ := typedx.ReprOf(n1)
 		enc, err := encDagCbor(rn)
 		if err != nil {
 			return fmt.Errorf("encoding the representation failed: %w", err)
@@ -109,10 +78,10 @@ func c08Check(c C08Case, rec *evid.Rec) error {
 		stv := tschema.TypeView(&c.S, c.Type, sorted)
 		srv, _ := tschema.ReprView(&c.S, c.Type, sorted)
 		n3 := nb.Build()
-		if err := checkViews(n3, stv, srv, "decoded from its encoding"); err != nil {
+		if err := typedx.CheckViews(n3, stv, srv, "decoded from its encoding"); err != nil {
 			return err
 		}
-		rn3, _ := reprOf(n3)
+		rn3, _ := typedx.ReprOf(n3)
 		enc3, err := encDagCbor(rn3)
 		if err != nil || !bytes.Equal(enc3, enc) {
 			return fmt.Errorf("re-encoding the decoded value gives other bytes: %s vs %s (err %v)", clip(enc3), clip(enc), err)
